@@ -1,4 +1,5 @@
 import MontePyVerif.Props.C04Core
+import MontePyVerif.Props.C04Neutral
 import MontePyVerif.Lemmas.RenumberLink
 /-!
 # C04, end to end — from the file read to the file written
